@@ -52,6 +52,7 @@ Definition simnbr_row (s : @nbr R A G) (l : @lp R A G) (quick : bool) (raw : lis
   match sim_neighborhood s row cache oracle with
   | None => None
   | Some [] =>
+      if negb (nnprob_len_ok s) then None else
       let (v, _) := draw_z RG g (RqChoice (length (n_arms s)) (n_nnprob s)) in
       Some ((nth_error (n_arms s) (Z.to_nat (match v with x :: _ => x | [] => 0%Z end)), ([], []), O), l)
   | Some idx =>
